@@ -10,8 +10,11 @@
   FULL STATEMENT of the last clause (kept visible): "when the union of the two parts' pairs is
   itself a valid matching the joined record is exactly the union".  It is FALSE of the code:
   only `segments[0]` of each part enters the join (`C08_join_drops_segments_counterexample`,
-  known finding KF-c).  Proved instead: `C08_join_union_partial` for single-segment parts that do
-  not interleave.
+  known finding KF-c), and two single-segment parts that interleave (the second-pass fragment
+  deliberately re-uses the last 2-3 labels of the first-pass record) are cut at one index, which
+  drops compatible pairs of the losing side (`C08_join_cuts_interleaving_counterexample`, known
+  finding KF-d).  Proved instead: `C08_join_union_partial` for single-segment parts that do not
+  interleave.
 -/
 import Props.Defs
 import Proofs.Modes
@@ -81,6 +84,16 @@ theorem C08_join_drops_segments_counterexample :
       { (default : Row) with segments := [⟨0, [.pair ⟨⟨6, 60⟩, ⟨6, 60⟩, 0, 0⟩, .pair ⟨⟨7, 70⟩, ⟨7, 70⟩, 0, 0⟩]⟩] } = .ok (some j) ∧
       sitePairs j.pairs = [(1, 1), (2, 2), (6, 6), (7, 7)] :=
   Coma.Proofs.join_drops_segments_counterexample
+
+/-- the join is a cut, not a union (KF-d): the parts (1,1),(2,2),(4,4) [label 3 unpaired on both maps]
+    and (2,2),(3,3),(5,5) [label 4 unpaired] interleave; their union (1,1)…(5,5) is a valid matching
+    but the joined record has lost (4,4).  Replayed on the real code by the `JOINROWS` operation. -/
+theorem C08_join_cuts_interleaving_counterexample :
+    (joinRows ⟨1000, 1, -250, 1500, 1000, 1200⟩
+      { (default : Row) with segments := [⟨0, [.pair ⟨⟨1, 10⟩, ⟨1, 10⟩, 0, 0⟩, .pair ⟨⟨2, 20⟩, ⟨2, 20⟩, 0, 0⟩, .uref ⟨3, 30⟩, .uqry ⟨3, 30⟩ 0, .pair ⟨⟨4, 40⟩, ⟨4, 40⟩, 0, 0⟩]⟩] }
+      { (default : Row) with segments := [⟨0, [.pair ⟨⟨2, 20⟩, ⟨2, 20⟩, 0, 0⟩, .pair ⟨⟨3, 30⟩, ⟨3, 30⟩, 0, 0⟩, .uref ⟨4, 40⟩, .uqry ⟨4, 40⟩ 0, .pair ⟨⟨5, 50⟩, ⟨5, 50⟩, 0, 0⟩]⟩] }).toOption.map
+        (Option.map fun j => sitePairs j.pairs) = some (some [(1, 1), (2, 2), (3, 3), (5, 5)]) := by
+  decide +kernel
 
 /-- what the unrepaired join did (F7): two parts placing the same query labels at two reference
     loci were joined into a record that lists query label 3 twice -/
